@@ -216,7 +216,7 @@ def r09_6(ctx):
             nl = ("10" in dn) or ("'\\n'" in dn) or ("'\n'" in dn)
             if full:
                 prefix = "(1 <<" in dn or "[.." in dn
-                no_newline_known = zero and any((not v and "!= 0" in g) or (v and "== 0" in g and "newline" not in g and g.count("10") > 0) for g, v in c["guards"].items())
+                no_newline_known = zero and any(v and (g.endswith(" matches 0") or "== 0" in g) and "newline" not in g and g.count("10") > 0 for g, v in c["guards"].items())
                 ok = (zero and (no_newline_known or any("10" in g or "'\\n'" in g for g in c["guards"]))) or (nl and not prefix)
                 what = "a whole 16-byte block: tally += newlines of the whole block"
             else:
